@@ -86,6 +86,9 @@ func profileVals(kind string) []string {
 		return profText
 	case "dates":
 		return profDates
+	case "fardates":
+		// instants a 64-bit count of nanoseconds since the epoch cannot tell apart or order (before 1678, after 2262)
+		return []string{"1000-01-01 00:00:00", "1584-07-21 23:34:33.709551616", "3000-01-01 00:00:00", "2020-05-06 07:08:09", "0001-01-01 00:00:00", "2262-04-11 23:47:16.854775807", "2262-04-11 23:47:16.854775808", "1677-09-21 00:12:43.145224192", "1677-09-21 00:12:43.145224191", "9999-12-31 23:59:59", "1969-12-31 23:59:59.999999999"}
 	case "hostile":
 		return profHostile
 	}
